@@ -49,10 +49,11 @@ request `["mcf_st", n, arcs, s, t, demand, impls]`  (min_cost_flow / solve_assig
 request `["mcf_ts", n, arcs, supplies, impls]`      (network_simplex instances)
   arcs  = `[[u, v, cap, cost], …]` per arc; impls = list of `null | [x, reportedCost]` with `x` a
   per-arc flow reconstructed by the harness from an implementation's returned dict
-reply `[status, x, cost, pot, cut, iters, cancel, cert, implChecks]`
+reply `[status, x, cost, pot, cut, iters, cancel, cert, implChecks, feature]`
   status ∈ feasible | infeasible | negcycle ; x/cost/pot (feasible) or cut (infeasible) from `ssp`
   cert       : verified checker on the model's own answer (`chkMinCost` resp. `chkInfeas`)
   implChecks : per impl `null | [chkFeas x, costF x, costF x == reportedCost]`
+  feature    : `hasPairFeature arcs` (anti-parallel pair or parallel arcs of different cost)
 -/
 
 def toArcs4? (v : Val) : Option (List Arc) := do
@@ -87,22 +88,17 @@ def replyMinCost (I : Inst) (status : Inst.SStatus) (x : List Int) (cost : Int) 
     | some (ix, rep) =>
       Val.arr [Val.bool (I.chkFeas ix), Val.int (I.costF (Inst.fl ix)), Val.bool (I.costF (Inst.fl ix) == rep)]
   (Val.arr [Val.str sname, Val.ofInts x, Val.int cost, Val.ofInts pot, Val.ofNats cut, Val.int iters,
-    Val.int cancel, Val.bool cert, Val.arr ichk]).render
+    Val.int cancel, Val.bool cert, Val.arr ichk, Val.bool (hasPairFeature I.arcs)]).render
 
 def handleST (n : Nat) (arcs : List Arc) (s t : Nat) (d : Int)
     (impls : List (Option (List Int × Int))) : String :=
-  let I := Inst.ofST n arcs s t d
-  let o := I.ssp s t d
-  replyMinCost I o.status o.x o.cost o.pot o.reach o.iters o.cancel impls
+  let o := solveST n arcs s t d      -- `ssp` + verified certificate check (`ssp_sound`)
+  replyMinCost (Inst.ofST n arcs s t d) o.status o.x o.cost o.pot o.reach o.iters o.cancel impls
 
 def handleTS (n : Nat) (arcs : List Arc) (b : List Int) (impls : List (Option (List Int × Int))) : String :=
   let I : Inst := ⟨n, arcs, b⟩
-  if lsum (List.range n) I.sup != 0 then
-    replyMinCost I .infeasible [] 0 [] (List.range n) 0 0 impls
-  else
-    let (J, d) := I.toST
-    let o := J.ssp n (n + 1) d
-    replyMinCost I o.status (o.x.take I.m) o.cost (o.pot.take n) (o.reach.filter (· < n)) o.iters o.cancel impls
+  let o := solveTS I                 -- reduction to s-t form + verified certificate check on `I`
+  replyMinCost I o.status o.x o.cost o.pot o.reach o.iters o.cancel impls
 
 /-! request `["assign", n, m, rows, implAssign|null, implObjective|null]`  (solve_assignment)
 reply `[status, cost, assignment, iters, cert, implChecks|null]`
@@ -112,9 +108,9 @@ reply `[status, cost, assignment, iters, cert, implChecks|null]`
 def handleAssign (n m : Nat) (rows : List (List Int)) (impl : Option (List Int)) (obj : Option Int) : String :=
   let C := matEntry rows
   let I := assignInst n m C
-  let o := I.ssp 0 1 ((min n m : Nat) : Int)
+  let o := I.certify (I.ssp 0 1 ((min n m : Nat) : Int))
   let cert := match o.status with
-    | .feasible => I.chkMinCost o.x o.pot o.cost
+    | .feasible => I.chkMinCost o.x o.pot o.cost     -- (what `certify` has just checked)
     | _ => false
   -- arcs n + i*m + j are the row-to-column arcs
   let asg : List Int := (List.range n).map fun i =>
